@@ -33,26 +33,25 @@ MANIFEST = dict(
          "references turned into pointers (toC). The model is tied to declast.py/todict.py on every run by differential "
          "correspondence through the compiled Lean driver (outcome class, diagnostic text, structure, five renderings, token-"
          "level renderings; default and nested-namespace environments); implementation-only oracles: real-parser round trip "
-         "(also after the generate phase, comparing attribute values), g++ is_same of decltype(original) vs the rendering and "
-         "vs cxxMeaning, gcc type compatibility of the C rendering.",
+         "(also after the generate phase, comparing attribute values), g++ is_same of decltype(original) vs the rendering (also "
+         "with asgn_value=True) and vs cxxMeaning, g++ value comparison of every recorded array-extent expression tree with its "
+         "source text (grouping/associativity), gcc type compatibility of the C rendering.",
     design="3 C09",
     note="Trusted: Lean kernel (axioms propext, Classical.choice, Quot.sound); the hand-written models Model/Decl.lean, Token.lean, "
          "CxxMeaning.lean, validated on generated inputs only (corpus, 981 systematic parameter-list shapes, 672 qualified names "
          "over a nested environment, grammar-directed declarations, single-token mutations, random token sequences); cxxMeaning "
          "as a rendering of ISO C++ for this declarator subset (validated against g++ 12 on every run); Python number formatting "
          "run by the harness. _partial / not proved: function-declarator case of the argToks theorems, arbitrary accepted token "
-         "lists for clause (1) (only canonical renderings), general [expr] dimensions, qualified/templated types in WF. Open "
-         "findings: RENDERING LIMITATIONS (documented normalisations of the round trip, no disagreement with C++): "
-         "roundtrip:attr-eq-value (+a=1 rendered +a(1)), roundtrip:attr-not-rendered (names starting with _ / template), "
-         "roundtrip:nested-template-argument (str() of a template argument), roundtrip:expr-right-nested and "
-         "roundtrip:expr-signed-operand (PrintNode parenthesisation), roundtrip:single-void-param ((void +attr) becomes ()); "
-         "ACCEPTED NON-C++ INPUT / SEMANTIC DISAGREEMENT with C++: roundtrip:empty-declarator, roundtrip:abstract-function and "
-         "meaning:abstract-function-parens (`int ()`, `T *()`, `int *(int)`: the parser always reads '(' after the pointer "
-         "operators as a nested declarator; a repair needs two tokens of look-ahead in a generator-based tokenizer, not "
-         "contained). Also open: gxx:/meaning:/roundtrip:name-is-a-type, now only for a PARENTHESISED declarator named like a type "
-         "(`vector<int> (string)`), same root cause. Fixed in this wave: name-is-a-type for plain declarators (4cf149c) and "
-         "typename-plus-specifier (c944844), the two other "
-         "semantic disagreements.",
+         "lists for clause (1) (only canonical renderings), general [expr] dimensions, qualified/templated types in WF. The rendering "
+         "entry points with their keyword arguments (asgn_value, remove_const, as_ptr, force_ptr, as_scalar, name=, params=None, "
+         "with_template_args, continuation) are modelled (genArgK; argConst_default, asgn_value_keeps_const_behind_indirection, "
+         "asgn_value_drops_const_of_values, genArgK_asgn_value_indirect) and tied through the driver op `kw`. Open findings (3), "
+         "all RENDERING LIMITATIONS of the literal round trip, none a disagreement with C++: roundtrip:attr-eq-value (+a=1 is "
+         "rendered +a(1); the value becomes text), roundtrip:nested-template-argument (str() of a template argument drops its own "
+         "arguments), roundtrip:expr-signed-operand (PrintNode's deliberate parentheses around a signed operand re-parse as a "
+         "ParenExpr node). Fixed: all SEMANTIC disagreements with C++ (name-is-a-type c918081 + 02af1f3, typename-plus-specifier "
+         "462fc2a, '(' as parameter list vs nested declarator 02af1f3: int (), T *(), int *(int), vector<int> (string)), the "
+         "decorated lone void parameter (f6e47c8) and attributes that were accepted but never rendered (d5f336d).",
     technique="Lean 4 proof by induction over the declaration (printer/parser round trip; printer-side induction for the reference "
               "semantics) + differential correspondence model/implementation + g++/gcc oracles",
 )
@@ -68,6 +67,10 @@ THEOREMS = {
         "Shroud.Decl.denote_argToks_cxx_object_partial",
         "Shroud.Decl.denote_argToks_c_object_partial",
         "Shroud.Decl.specMeans_builtin",
+        "Shroud.Decl.argConst_default",
+        "Shroud.Decl.asgn_value_keeps_const_behind_indirection",
+        "Shroud.Decl.asgn_value_drops_const_of_values",
+        "Shroud.Decl.genArgK_asgn_value_indirect",
     ]
 }
 
@@ -198,8 +201,6 @@ def rt_class(a, text):
         return "attr-not-rendered"
     if walk(a, lambda d: empty_declarator(d.declarator)):
         return "empty-declarator"
-    if walk(a, abstract_func):
-        return "abstract-function"
     if walk(a, void_param):
         return "single-void-param"
     if walk(a, symbol_name):
@@ -406,6 +407,20 @@ def gxx_check(ctx, cases, tag, extra_head="", meaning_op="meaning", must_accept=
             lines.append("namespace r%d { extern %s; }" % (i, rendered))
             where[len(lines) + 1] = ("same", i)
             lines.append("static_assert(std::is_same<decltype(o%d::%s), decltype(r%d::%s)>::value, \"differ\");" % (i, name, i, name))
+            if a.params is None:
+                # asgn_value=True: a by-value declaration loses its const, anything behind a pointer/reference keeps its type
+                try:
+                    asgn = a.gen_arg_as_cxx(with_template_args=True, asgn_value=True)
+                    # what the declared type is decided by the compiler, not by Shroud's is_indirect()
+                    t = "decltype(o%d::%s)" % (i, name)
+                    want = ("std::conditional<std::is_pointer<%s>::value || std::is_reference<%s>::value || "
+                            "std::is_array<%s>::value, %s, std::remove_const<%s>::type>::type" % (t, t, t, t, t))
+                    where[len(lines) + 1] = ("asgnr", i)
+                    lines.append("namespace g%d { extern %s; }" % (i, asgn))
+                    where[len(lines) + 1] = ("asgn", i)
+                    lines.append("static_assert(std::is_same<%s, decltype(g%d::%s)>::value, \"asgn\");" % (want, i, name))
+                except Exception:  # noqa
+                    pass
             if ref[i] is not None and ref[i][1] and ref[i][0] == name:
                 where[len(lines) + 1] = ("ref", i)
                 lines.append("static_assert(std::is_same<decltype(o%d::%s), %s>::value, \"refdiffer\");" % (i, name, ref[i][2]))
@@ -436,6 +451,12 @@ def gxx_check(ctx, cases, tag, extra_head="", meaning_op="meaning", must_accept=
                 continue           # not C++: nothing to compare with
             compared += 1
             ctx.count(1)
+            if "asgn" in b or "asgnr" in b:
+                cls = "paren-declarator" if (a.declarator is not None and a.declarator.func is not None) else rt_class(a, text)
+                ctx.fail("gxx-asgn_value:" + cls, "g++: gen_arg_as_cxx(asgn_value=True) renders %r as %r, which is neither the "
+                         "declared type (pointer/reference/array) nor the declared value type without its const (%s)" % (
+                             text, a.gen_arg_as_cxx(with_template_args=True, asgn_value=True),
+                             b.get("asgn", b.get("asgnr"))), {"kind": "gxx", "decl": text})
             if "rend" in b or "same" in b:
                 why = b.get("rend", b.get("same"))
                 ctx.fail("gxx:" + rt_class(a, text), "g++: %r is rendered by gen_arg_as_cxx as %r, not the same type (%s)" % (
@@ -490,6 +511,12 @@ def gcc_c_check(ctx, cases):
                 continue
             compared += 1
             ctx.count(1)
+            if "asgn" in b or "asgnr" in b:
+                cls = "paren-declarator" if (a.declarator is not None and a.declarator.func is not None) else rt_class(a, text)
+                ctx.fail("gxx-asgn_value:" + cls, "g++: gen_arg_as_cxx(asgn_value=True) renders %r as %r, which is neither the "
+                         "declared type (pointer/reference/array) nor the declared value type without its const (%s)" % (
+                             text, a.gen_arg_as_cxx(with_template_args=True, asgn_value=True),
+                             b.get("asgn", b.get("asgnr"))), {"kind": "gxx", "decl": text})
             if "rend" in b or "same" in b:
                 ctx.fail("gcc-c", "gcc: %r is rendered by gen_arg_as_c as %r: %s" % (text, a.gen_arg_as_c(), b.get("rend", b.get("same"))),
                          {"kind": "gcc", "decl": text})
@@ -675,6 +702,113 @@ def special_shapes():
     return out
 
 
+def expr_shapes():
+    """Array extents with chains of operators of equal and of mixed precedence, unary signs and parentheses:
+    the shapes in which grouping (associativity / precedence) changes the value."""
+    import itertools
+    atoms = [["n", "m", "k"], ["100", "10", "5"], ["a", "2", "b"], ["N", "M", "3"]]
+    out = []
+    for at in atoms:
+        for o1, o2 in itertools.product("+-*/", repeat=2):
+            out.append("double w [ %s %s %s %s %s ]" % (at[0], o1, at[1], o2, at[2]))
+    for o1, o2, o3 in itertools.product("+-*/", repeat=3):
+        out.append("int w [ n %s m %s k %s 2 ]" % (o1, o2, o3))
+    out += ["int w [ n - ( m - k ) ]", "int w [ ( n - m ) - k ]", "int w [ - n - m ]", "int w [ n - - m - k ]", "int w [ n / ( m / k ) ]",
+            "int w [ 2 * ( n + 1 ) - 1 ]", "void f ( int w [ n - m - k ] , double v [ 100 / 10 / 5 ] )", "int w [ n - m - k ] [ a / b * c ]"]
+    return out
+
+
+EXPR_VALUES = {"n": 20, "m": 5, "k": 3, "a": 40, "b": 4, "c": 2, "N": 11, "M": 4, "x": 9}
+
+
+def tree_text(e):
+    """the recorded expression tree, fully parenthesised (None: contains a call or an unknown name)"""
+    if "constant" in e:
+        return e["constant"] if re.fullmatch(r"[0-9]+", e["constant"]) else None
+    if "left" in e:
+        l, r = tree_text(e["left"]), tree_text(e["right"])
+        return None if l is None or r is None else "(%s %s %s)" % (l, e["op"], r)
+    if "op" in e:
+        x = tree_text(e["node"])
+        return None if x is None else "(%s %s)" % (e["op"], x)
+    if "name" in e:
+        return None if "args" in e or e["name"] not in EXPR_VALUES else e["name"]
+    if "node" in e:
+        x = tree_text(e["node"])
+        return None if x is None else "(%s)" % x
+    return None
+
+
+def oracle_expr_values(ctx, cases, asts, impl):
+    """Value-level comparison of the recorded expression trees with the C++ compiler: for every array extent made of
+    integers, known identifiers, + - * / and parentheses, g++ must find the fully parenthesised recorded tree equal to
+    the source text (long arithmetic, identifiers bound to fixed constants)."""
+    _, todict = dc.mods()
+    items = []
+
+    def walk(d, text):
+        for e in d.get("array", []):
+            t = tree_text(e)
+            if t is not None:
+                items.append((text, t, e))
+        for p in d.get("params", []) or []:
+            walk(p, text)
+
+    def src_text(e):
+        # the source spelling of the extent: PrintNode output (it adds parentheses only around signed operands)
+        return todict.print_node_dict(e) if hasattr(todict, "print_node_dict") else None
+
+    for s, a, l in zip(cases, asts, impl):
+        if a is None or not l.startswith("ok "):
+            continue
+        try:
+            d = todict.to_dict(a)
+        except Exception:  # noqa
+            continue
+        walk(d, s)
+    # source text of each extent: take it from the declaration text itself (bracket groups in order)
+    tmp = common.scratch()
+    stat = {"extents": 0, "compared": 0, "differ": 0}
+    try:
+        lines = ["constexpr long " + ", ".join("%s = %d" % kv for kv in EXPR_VALUES.items()) + ";"]
+        where = {}
+        seen = set()
+        for text, tree, e in items:
+            groups = re.findall(r"\[ ([^\[\]]*) \]", text)
+            for gsrc in groups:
+                if not re.fullmatch(r"[0-9A-Za-z_+\-*/() ]+", gsrc) or (gsrc, tree) in seen:
+                    continue
+                # pair the extent with the bracket group that has the same tokens (parentheses aside)
+                if re.sub(r"[() ]", "", gsrc) != re.sub(r"[() ]", "", tree):
+                    continue
+                seen.add((gsrc, tree))
+                where[len(lines) + 1] = (text, gsrc, tree)
+                lines.append("static_assert((%s) == %s, \"grouping\");" % (gsrc, tree))
+        stat["extents"] = len(where)
+        src = os.path.join(tmp, "e.cpp")
+        with open(src, "w") as f:
+            f.write("\n".join(lines) + "\n")
+        p = subprocess.run(["g++", "-std=c++11", "-fsyntax-only", "-fmax-errors=0", "-w", src],
+                           stdout=subprocess.PIPE, stderr=subprocess.STDOUT, text=True, timeout=600)
+        failed, other = set(), set()
+        for m in re.finditer(r"e\.cpp:(\d+):\d+: error: (.*)", p.stdout):
+            ln = int(m.group(1))
+            if ln in where:
+                (failed if "static assertion failed" in m.group(2) else other).add(ln)
+        for ln, (text, gsrc, tree) in where.items():
+            if ln in other and ln not in failed:
+                continue          # not a constant expression (division by zero, overflow)
+            stat["compared"] += 1
+            ctx.count(1)
+            if ln in failed:
+                stat["differ"] += 1
+                ctx.fail("expr-grouping", "in %r the extent `%s` is recorded as the tree %s, which g++ evaluates to a different value" % (
+                    text, gsrc, tree), {"kind": "expr", "decl": text})
+    finally:
+        common.rmtree(tmp)
+    ctx.note("expression_values_vs_gxx", stat)
+
+
 def nested_cases():
     """Qualified names of 1-4 components over the nested environment (extract_decl.nested_library): every path,
     valid or not, in variable / parameter / callback position."""
@@ -697,6 +831,49 @@ def nested_cases():
         out.append("%s * g ( %s * , int n )" % (nm, nm))
         out.append("void h ( int ( * cb ) ( %s * ) )" % nm)
     return out
+
+
+KW_COMBOS = [dict(asgn_value=True), dict(remove_const=True), dict(as_ptr=True), dict(force_ptr=True), dict(as_scalar=True),
+             dict(name="SH_x"), dict(name=None), dict(params=None), dict(with_template_args=True), dict(continuation=True),
+             dict(asgn_value=True, as_ptr=True), dict(asgn_value=True, name="SH_x", params=None)]
+
+
+def kw_tie(ctx, cases, asts, impl, ok):
+    """the rendering entry points with their keyword variants (driver op `kw`)"""
+    drv = common.Driver("drv_decl")
+    sel = [(s, a) for s, a, l in zip(cases, asts, impl) if a is not None and l.startswith("ok ")][:8000]
+    if not (drv.available() and ok) or not sel:
+        return
+    out = drv.run(["kw " + dc.enc_tokens(dc.raw_tokens(s)) for s, _ in sel])
+    dis = []
+    n = 0
+    for (s, a), m in zip(sel, out):
+        want = ["ok"]
+        for f in (a.gen_arg_as_cxx, a.gen_arg_as_c):
+            for kw in KW_COMBOS:
+                try:
+                    want.append(common.enc(f(**kw)))
+                except dc.INTERNAL as e:
+                    want.append("!" + type(e).__name__)
+                except Exception as e:  # noqa
+                    want.append("!raise:" + type(e).__name__)
+        n += 1
+        w = " ".join(want)
+        if w != m:
+            fw, fm = w.split(" "), m.split(" ")
+            idx = next((i for i, (x, y) in enumerate(zip(fw, fm)) if x != y), None)
+            dis.append({"decl": s, "combo": str(KW_COMBOS[(idx - 1) % len(KW_COMBOS)]) if idx else "?",
+                        "impl": fw[idx] if idx else w[:100], "model": fm[idx] if idx is not None and idx < len(fm) else m[:100]})
+    ctx.count(n * 2 * len(KW_COMBOS))
+    ctx.note("keyword_renderings_compared", {"declarations": n, "combinations": 2 * len(KW_COMBOS), "disagreements": len(dis)})
+    if dis:
+        for x in dis[:5]:
+            for k in ("impl", "model"):
+                try:
+                    x[k] = common.dec(x[k])
+                except Exception:  # noqa
+                    pass
+        ctx.tie_broken("keyword-renderings", dis[:5])
 
 
 def correspondence(ctx, cases, kinds, ok, want_tokens=True, outcome_only=False, lib=None, op="parse", tag="decl"):
@@ -808,12 +985,16 @@ def run(ctx):
         sp_cases = special_shapes()
         cases += sp_cases
         kinds += ["special"] * len(sp_cases)
+        ex_cases = expr_shapes()
+        cases += ex_cases
+        kinds += ["expr"] * len(ex_cases)
         c2, k2, gstats = streams(r, n, depth)
         cases += c2
         kinds += k2
         st["cases"], st["kinds"], st["sp"] = cases, kinds, sp_cases
         impl, asts = correspondence(ctx, cases, kinds, ok)
         st["impl"], st["asts"] = impl, asts
+        kw_tie(ctx, cases, asts, impl, ok)
         ctx.note("special_shapes", len(sp_cases))
         ctx.note("generator_branches", dict(sorted(gstats.items(), key=lambda kv: -kv[1])[:40]))
         for s, a in list(zip(cases, impl))[:: max(1, len(cases) // 6)][:6]:
@@ -911,6 +1092,7 @@ def run(ctx):
     dc.guarded(ctx, "tie", phase_tie)
     dc.guarded(ctx, "implementation-run", ensure_impl)
     dc.guarded(ctx, "oracle-roundtrip", phase_roundtrip)
+    dc.guarded(ctx, "oracle-expression-values", oracle_expr_values, ctx, st["cases"], st["asts"], st["impl"])
     dc.guarded(ctx, "reference-semantics", phase_meaning)
     dc.guarded(ctx, "nested-namespaces", phase_nested)
     # ---- oracle (c): declarations after the generate phase (attribute values as integers / True / text)
